@@ -103,6 +103,18 @@ def gen(tier, seed):
         else:
             calls.append((text, rnd.randint(0, len(joined)) if k % 3 == 1 else rnd.randint(4000, len(joined))))
         cases.append(case_line(p, calls))
+    # one Write holding many lines (10-40), ending in a line break or not, as the last thing written or followed by more
+    for nlines in list(range(10, 41)) if tier != "quick" else [10, 15, 16, 17, 18, 19, 31, 32, 33, 40]:
+        for final_lf in (True, False):
+            for p in (b"--", b"> "):
+                text = b"".join(b"line %d\n" % i for i in range(nlines))
+                if not final_lf:
+                    text = text[:-1]
+                for pre in (b"", b"part"):
+                    for post in (None, b"x", b"\n", b"y\n"):
+                        calls = ([(pre, None)] if pre else []) + [(text, None)] + ([(post, None)] if post is not None else [])
+                        cases.append(case_line(p, calls))
+                cases.append("bytes %s %s" % (lib.hexs(p), lib.hexs(text)))
     # two writers stacked (the library's printers nest one per level): head through the lower writer, a fresh upper
     # writer, every chunking of the text through it, a tail through the lower one
     def op(which, chunk, acc=None):
